@@ -288,8 +288,20 @@ impl<K: CacheKey + 'static> DiskCache<K> {
     }
 
     /// Generate file path for a cache key
-    fn get_file_path(&self, key: &K) -> PathBuf {
+    ///
+    /// The key string is used as a relative path below the cache directory
+    /// (`/` separates subdirectories). A key that would leave the directory
+    /// (`..`, an absolute path) or that names no file at all is rejected.
+    fn get_file_path(&self, key: &K) -> CacheResult<PathBuf> {
         let key_str = key.as_cache_key();
+        let mut components = Path::new(key_str).components().peekable();
+        if components.peek().is_none()
+            || !components.all(|c| matches!(c, std::path::Component::Normal(_)))
+        {
+            return Err(CacheError::Backend(format!(
+                "cache key is not a relative path inside the cache directory: {key_str:?}"
+            )));
+        }
 
         if self.config.use_subdirectories {
             // Create hierarchical directory structure using key hash
@@ -310,9 +322,9 @@ impl<K: CacheKey + 'static> DiskCache<K> {
             }
 
             path.push(key_str);
-            path
+            Ok(path)
         } else {
-            self.config.cache_dir.join(key_str)
+            Ok(self.config.cache_dir.join(key_str))
         }
     }
 
@@ -543,7 +555,7 @@ impl<K: CacheKey + 'static> AsyncCache<K> for DiskCache<K> {
             }
         } else {
             // Not in index - try to find file on disk as fallback
-            let file_path = self.get_file_path(key);
+            let file_path = self.get_file_path(key)?;
             if file_path.exists() {
                 // Found file on disk - try to read it and add to index
                 match self.read_file(&file_path).await {
@@ -593,7 +605,7 @@ impl<K: CacheKey + 'static> AsyncCache<K> for DiskCache<K> {
         let start_time = Instant::now();
         let size_bytes = value.len();
 
-        let file_path = self.get_file_path(&key);
+        let file_path = self.get_file_path(&key)?;
 
         // Write data to disk
         self.write_file(&file_path, &value).await?;
